@@ -78,3 +78,25 @@ package scheduler
 //@   at[swapnode] call objects.Node.ReplaceAllocation#1: assert confirmed.nodeID == alloc.nodeID
 //@   at[queue] call objects.Queue.DecAllocatedResource#1: assert arg0 == queue && arg1 == total
 //@   at[preempting] call objects.Queue.DecPreemptingResource#1: assert arg0 == queue && arg1 == totalPreempting
+
+// ================================================================ C12 / C13 / C03: allocations reported by the RM
+
+//@ spec wfRes(r *resources.Resource) bool = (forall t Key :: rv(r, t) >= 0) && (exists t Key :: rv(r, t) > 0)
+
+// UpdateAllocation: no ledger is touched before the resource was validated as positive; a node is only dereferenced
+// when it was found; the recovery branch and the external-placement branch book the SAME resource to queue chain,
+// node and application (which also charges the user, C03 pairing), so restart recovery rebuilds the same totals
+//@ func (pc *PartitionContext) UpdateAllocation(alloc *objects.Allocation) (requestCreated bool, allocCreated bool, err error)
+//@   props C12 C13 C03 C04
+//@   sweep
+//@   mode nopanic=off
+//@   at[validated] call objects.Application.AddAllocationAsk#1: assert arg1 == alloc && wfRes(alloc.allocatedResource) && node == nil
+//@   at[recoverqueue] call objects.Queue.IncAllocatedResource#1: assert arg0 == queue && arg1 == alloc.allocatedResource && wfRes(alloc.allocatedResource)
+//@   at[recovernode] call objects.Node.AddAllocation#1: assert arg0 == node && node != nil && arg1 == alloc
+//@   at[recoverapp] call objects.Application.AddAllocation#1: assert arg0 == app && arg1 == alloc
+//@   at[recoverask] call objects.Application.RecoverAllocationAsk#1: assert arg0 == app && arg1 == alloc
+//@   at[resize] call objects.Node.UpdateAllocatedResource#1: assert arg0 == existingNode && existingNode != nil && arg1 == delta
+//@   at[placequeue] call objects.Queue.IncAllocatedResource#2: assert arg0 == queue && arg1 == alloc.allocatedResource
+//@   at[placenode] call objects.Node.AddAllocation#2: assert arg0 == node && node != nil && arg1 == existing
+//@   at[placeapp] call objects.Application.AddAllocation#2: assert arg0 == app && arg1 == existing
+//@   ensures[nil] alloc == nil ==> !requestCreated && !allocCreated && err == nil
